@@ -229,6 +229,12 @@ class TcpclAdaptor(AbstractAdaptor):
                 self._conn_ready(cl_conn, cl_conn.nodeid)
                 self._conn_ready(cl_conn, None)
                 self._reverse_route(cl_conn)
+            elif state in ('ending', 'closed'):
+                # A session that is ending takes no new transfers
+                cl_conn = self._cl_conn_path.get(conn_path)
+                if (cl_conn is not None and cl_conn.nodeid
+                        and self._cl_conn_nodeid.get(cl_conn.nodeid) is cl_conn):
+                    del self._cl_conn_nodeid[cl_conn.nodeid]
 
         conn_iface.connect_to_signal('session_state_changed', handle_state_change)
 
@@ -251,7 +257,7 @@ class TcpclAdaptor(AbstractAdaptor):
         cl_conn = self._cl_conn_path[conn_path]
         self._logger.debug('Detaching from CL object %s (node %s)', conn_path, cl_conn.nodeid)
         del self._cl_conn_path[cl_conn.obj_path]
-        if cl_conn.nodeid:
+        if cl_conn.nodeid and self._cl_conn_nodeid.get(cl_conn.nodeid) is cl_conn:
             del self._cl_conn_nodeid[cl_conn.nodeid]
 
     def _conn_ready(self, cl_conn: 'TcpclConnection', next_hop: str):
